@@ -357,6 +357,14 @@ class C19(Prop):
                 return failed("bad_connect_request", "CONNECT request malformed: %s | %r" % (error, block[:160]),
                               labels, nontrivial)
             want_target = ("%s:%d" % (case["host"], tport)).encode()
+            # "naming exactly the target": one Host line, for this target, and no header twice (what an EARLIER
+            # connection in this process asked for has no business in this request)
+            hosts = req.get_all(b"host")
+            names_seen = [k.lower() for k, _ in req.headers]
+            if len(hosts) != 1 or hosts[0] not in (case["host"].encode(), want_target) or \
+                    len(set(names_seen)) != len(names_seen):
+                return failed("bad_connect_request", "CONNECT for %r carries Host %r and header names %r" % (
+                    want_target, hosts, names_seen), labels, nontrivial)
             if req.method != b"CONNECT" or req.target != want_target:
                 return failed("bad_connect_request", "first request is %r %r, expected CONNECT %r" % (
                     req.method, req.target, want_target), labels, nontrivial)
